@@ -8,7 +8,7 @@
 (* predicted verdict for replay into xz_decompress.                         *)
 (***************************************************************************)
 EXTENDS Xz, Json, IOUtils
-CONSTANTS MaxBlocks, Checks, Pids, BwBits
+CONSTANTS MaxBlocks, Checks, Pids, Pids2, BwBits
 VARIABLES file, shapes, mut, origc, done
 vars == <<file, shapes, mut, origc, done>>
 \* payload library: (LZMA2 bytes, decoded bytes) of the payloads the harness serialises (d_xz.rs
@@ -16,14 +16,20 @@ vars == <<file, shapes, mut, origc, done>>
 LibDef == << [plen |-> 5, ulen |-> 1], [plen |-> 6, ulen |-> 2], [plen |-> 7, ulen |-> 3], [plen |-> 8, ulen |-> 4],
              [plen |-> 1, ulen |-> 0], [plen |-> 12, ulen |-> 5], [plen |-> 16, ulen |-> 8], [plen |-> 24, ulen |-> 303] >>
 
+\* header sizes: minimal, +4, and two sizes whose stored size byte is >= 0x40 (260..1024 bytes: legal, only extra padding)
 BlockShapes == {[pid |-> p, hsize |-> MinHdr(hp, hu, Lib[p].plen, Lib[p].ulen) + extra, hasP |-> hp, hasU |-> hu] :
-                   p \in Pids, hp \in BOOLEAN, hu \in BOOLEAN, extra \in {0, 4}}
+                   p \in Pids, hp \in BOOLEAN, hu \in BOOLEAN, extra \in {0, 4, 256, 1000}}
+\* blocks after the first come from a smaller family (keeps the enumeration tractable)
+BlockShapes2 == {[pid |-> p, hsize |-> MinHdr(hp, hu, Lib[p].plen, Lib[p].ulen), hasP |-> hp, hasU |-> hu] :
+                   p \in Pids2, hp \in BOOLEAN, hu \in BOOLEAN}
 RECURSIVE SeqsUpTo(_, _)
 SeqsUpTo(S, n) == IF n = 0 THEN {<<>>} ELSE LET P == SeqsUpTo(S, n - 1) IN P \cup {Append(q, x) : q \in {r \in P : Len(r) = n - 1}, x \in S}
 
 NoMut == [f |-> "none", b |-> 0, v |-> 0]
 FileMuts(g) ==
-  {[f |-> n, b |-> 0, v |-> 0] : n \in {"hmagic", "hnull", "hcrc", "idxPad", "idxCrc", "fcrc", "fnull", "fmagic"}}
+  {[f |-> n, b |-> 0, v |-> 0] : n \in {"hmagic", "hnull", "hcrc", "idxCrc", "fcrc", "fnull", "fmagic"}}
+  \cup {[f |-> "idxPad", b |-> 0, v |-> v] : v \in 1..4}            \* four concrete ways of being non-zero
+  \cup {[f |-> n, b |-> 0, v |-> v] : n \in {"hres", "fres", "bothres"}, v \in {1, 8}}   \* reserved nibble of the flags byte
   \cup {[f |-> "hcheck", b |-> 0, v |-> c] : c \in {0, 1, 4} \ {g.check}}
   \cup {[f |-> "fcheck", b |-> 0, v |-> c] : c \in {0, 1, 4, 10} \ {g.check}}
   \cup {[f |-> "idxN", b |-> 0, v |-> v] : v \in {g.idxN + 1} \cup (IF g.idxN > 0 THEN {g.idxN - 1} ELSE {})}
@@ -31,7 +37,8 @@ FileMuts(g) ==
   \cup {[f |-> "trailing", b |-> 0, v |-> v] : v \in {1, 4}}
 BlockMuts(g, i) ==
   LET b == g.blocks[i] IN
-  {[f |-> n, b |-> i, v |-> 0] : n \in {"reserved", "hpad", "bhcrc", "bpad"}}
+  {[f |-> n, b |-> i, v |-> 0] : n \in {"reserved", "bhcrc"}}
+  \cup {[f |-> n, b |-> i, v |-> v] : n \in {"hpad", "bpad"}, v \in 1..4}
   \cup (IF g.check \in {1, 4} THEN {[f |-> "check", b |-> i, v |-> 0]} ELSE {})
   \cup {[f |-> "fid", b |-> i, v |-> v] : v \in {3, 4, 9}}
   \cup {[f |-> "nfilters", b |-> i, v |-> 2]}
@@ -47,6 +54,9 @@ Mutate(g, m) ==
     [] m.f = "hmagic"  -> [g EXCEPT !.hmagicOk = FALSE]
     [] m.f = "hnull"   -> [g EXCEPT !.hnull = FALSE]
     [] m.f = "hcrc"    -> [g EXCEPT !.hcrcOk = FALSE]
+    [] m.f = "hres"    -> [g EXCEPT !.hres = m.v]
+    [] m.f = "fres"    -> [g EXCEPT !.fres = m.v]
+    [] m.f = "bothres" -> [g EXCEPT !.hres = m.v, !.fres = m.v]
     [] m.f = "hcheck"  -> [g EXCEPT !.check = m.v]
     [] m.f = "fcheck"  -> [g EXCEPT !.fcheck = m.v]
     [] m.f = "idxPad"  -> [g EXCEPT !.idxPadOk = FALSE]
@@ -75,7 +85,7 @@ Mutate(g, m) ==
 Init == /\ origc \in Checks /\ shapes = <<>> /\ mut = NoMut /\ done = FALSE
         /\ file = GoodFile(origc, <<>>)
 AddBlock == /\ ~done /\ Len(shapes) < MaxBlocks
-            /\ \E s \in BlockShapes : shapes' = Append(shapes, s) /\ file' = GoodFile(origc, Append(shapes, s))
+            /\ \E s \in (IF shapes = <<>> THEN BlockShapes ELSE BlockShapes2) : shapes' = Append(shapes, s) /\ file' = GoodFile(origc, Append(shapes, s))
             /\ UNCHANGED <<mut, origc, done>>
 Finalize == /\ ~done
             /\ \E m \in Muts(file) : mut' = m /\ file' = Mutate(file, m)
